@@ -106,6 +106,13 @@ where
                 true => (v_node_index, u_node_index),
             };
 
+        // on a single-edge graph the stored edge is kept or replaced, so the adjacency
+        // vectors must follow the dedupe strategy; on a multi-edge graph they hold the minimum
+        let replace = match self.specs.multi_edges {
+            true => None,
+            false => Some(self.specs.edge_dedupe_strategy == EdgeDedupeStrategy::KeepLast),
+        };
+
         // add to the successors HashMap
         self.successors
             .entry(edge.u.clone())
@@ -125,6 +132,7 @@ where
             ordered_edge_v,
             edge.weight,
             edge_already_exists,
+            replace,
         );
 
         // add to predecessors
@@ -144,6 +152,7 @@ where
                     ordered_edge_u,
                     edge.weight,
                     edge_already_exists,
+                    replace,
                 );
             }
             false => {
@@ -161,6 +170,7 @@ where
                     ordered_edge_u,
                     edge.weight,
                     edge_already_exists,
+                    replace,
                 );
             }
         }
@@ -466,6 +476,7 @@ fn add_to_adjacency_vec(
     v_node_index: usize,
     weight: f64,
     edge_already_exists: bool,
+    replace: Option<bool>,
 ) {
     match edge_already_exists {
         true => {
@@ -473,7 +484,11 @@ fn add_to_adjacency_vec(
                 .iter()
                 .position(|succ| succ.node_index == v_node_index)
                 .unwrap();
-            if weight < adjacency_vec[u_node_index][index].weight {
+            let update = match replace {
+                Some(replace) => replace,
+                None => weight < adjacency_vec[u_node_index][index].weight,
+            };
+            if update {
                 adjacency_vec[u_node_index][index] = AdjacentNode::new(v_node_index, weight);
             }
         }
